@@ -154,6 +154,7 @@ type Inner struct {
 }
 
 // SetHid lets the driver make hid non-zero through the API as well.
+func (i Inner) secret() int    { return i.hid } // unexported getter-shaped method: never reachable from other packages
 func (i *Inner) SetHid(v int) { i.hid = v }
 func (i Inner) Hid() int      { vtr.Enter("ext.Inner.Hid"); return i.hid }
 
